@@ -479,13 +479,7 @@ def check_C01(ctx):
     ctx.traces += s.get("cases", 0)
     # the fourth construction path: every accepted sub_ontology call of the HpoSub model (and the 64-term wide source) - whichever allowed
     # result the crate picks, its reported ancestors must be the closure of ITS reported parents, children the inverse, child_of / parent_of membership
-    subouts = [tlc(ctx, "mc/MC_Sub.cfg", "mc/MC_Sub.tla", workers=14, timeout=3000)["out"],
-               tlc(ctx, "mc/MC_SubWide.cfg", "mc/MC_SubWide.tla", workers=6, timeout=3000)["out"]]
-    if not ctx.quick:
-        subouts.append(tlc(ctx, "mc/MC_Sub5.cfg", "mc/MC_Sub.tla", workers=14, timeout=6000)["out"])
-    s = hv(ctx, "replay-sub", prop="C01", laws_only=1, **{"in": concat(ctx, subouts, "c01-sub-lines.txt")})
-    ctx.traces += s.get("cases", 0)
-    ctx.extra["sub_ontology_calls"] = s.get("cases", 0)
+    sub_path(ctx, "C01", 1)
     trace_core(ctx, "C01", 10 if ctx.quick else 300)
     algo_drift(ctx, 20 if ctx.quick else 400)
     ctx.assumptions += [
@@ -493,6 +487,19 @@ def check_C01(ctx):
         "the harness' binary encoder and obo writer are cross-checked against the TLA+ encoders by the C08 / C09 checks",
     ]
     return finish(ctx)
+
+
+def sub_path(ctx, prop, mode):
+    """sub_ontology as a construction path of C01 / C02 / C03: every accepted call of the HpoSub model (and of the 64-term wide source) is issued;
+    mode 1: the closure laws on the result; mode 2 / 3: annotation links / information content against the specification's expectation for the
+    retained term set the crate chose (which set is retained is C14's business and is not judged here)"""
+    subouts = [tlc(ctx, "mc/MC_Sub.cfg", "mc/MC_Sub.tla", workers=14, timeout=3000)["out"],
+               tlc(ctx, "mc/MC_SubWide.cfg", "mc/MC_SubWide.tla", workers=6, timeout=3000)["out"]]
+    if not ctx.quick:
+        subouts.append(tlc(ctx, "mc/MC_Sub5.cfg", "mc/MC_Sub.tla", workers=14, timeout=6000)["out"])
+    s = hv(ctx, "replay-sub", prop=prop, laws_only=mode, **{"in": concat(ctx, subouts, prop.lower() + "-sub-lines.txt")})
+    ctx.traces += s.get("cases", 0)
+    ctx.extra["sub_ontology_calls"] = s.get("cases", 0)
 
 
 def sim_full(ctx, num, workers, depth=45):
@@ -520,6 +527,7 @@ def check_C02(ctx):
     allout = concat(ctx, outs, "c02-lines.txt")
     s = hv(ctx, "replay-core", prop="C02", **{"in": allout}, jax_every=(4 if ctx.quick else 1), concs="dense,roots0_1,random")
     ctx.traces += s.get("cases", 0)
+    sub_path(ctx, "C02", 2)
     trace_core(ctx, "C02", 10 if ctx.quick else 300)
     if not ctx.quick:
         trace_core(ctx, "EXTRA", 60)        # growth: which records a sub-ontology keeps (modifier filter); EXTRA-FINDING only
@@ -545,6 +553,7 @@ def check_C03(ctx):
     allout = concat(ctx, outs, "c03-lines.txt")
     s = hv(ctx, "replay-core", prop="C03", **{"in": allout}, jax_every=(4 if ctx.quick else 1), concs="dense,roots0_1,random")
     ctx.traces += s.get("cases", 0)
+    sub_path(ctx, "C03", 3)
     trace_core(ctx, "C03", 10 if ctx.quick else 200)     # incl. sub_ontology: IC consistent with the ontology's own n, N
     ctx.assumptions += ["ln and f32 rounding are evaluated outside TLC (relative tolerance 1e-5); the spec decides the integer arguments",
                         "more than 65535 records of one kind are outside the crate's own contract (u16 conversion error)"]
